@@ -96,6 +96,7 @@ func checkFragment(l lm.List, f int64) (lm.List, string, string) {
 }
 
 func c10Run(c *core.Ctx) {
+	longRun(c, "fragment")
 	type scope struct {
 		grid  int64
 		max   int
